@@ -456,3 +456,90 @@ def exist_cmp(ctx: Ctx) -> List[Ob]:
                 obs.append(ctx.ob("EXIST-CMP", props, f, f"return {norm(v)}", n, ok,
                                   "" if ok else "`one or more` must be `len(...) > 0`: a single match is reported as none"))
     return obs
+
+
+# ---------------------------------------------------------------- SLICE-NEG
+_SLICE_CONTROL = '''
+def zz_slice_control(items, skip):
+    n = len(items)
+    head = items[: n - skip]
+    if n >= skip:
+        return head
+    return []
+'''
+
+
+def _diff_lin(x, y):
+    d = dict(x[0])
+    for k, v in y[0].items():
+        d[k] = d.get(k, 0) - v
+    return ({k: v for k, v in d.items() if v}, x[1] - y[1])
+
+
+def _cmp_lin(ctx: Ctx, f: Func, e: ast.AST):
+    """Compare a <op> b  ->  (variable part of a - b, const, op)  or None."""
+    if not (isinstance(e, ast.Compare) and len(e.ops) == 1 and isinstance(e.ops[0], (ast.Lt, ast.LtE, ast.Gt, ast.GtE))):
+        return None
+    a, b = _resolve_local(ctx, f, _lin(e.left)), _resolve_local(ctx, f, _lin(e.comparators[0]))
+    if a is None or b is None:
+        return None
+    d = _diff_lin(a, b)
+    return d[0], d[1], type(e.ops[0])
+
+
+def _slice_neg_findings(ctx: Ctx, f: Func):
+    """(subscript, bound text, guarded: bool, believed_negative: Optional[str]) for every slice bound / index that is a
+    difference of two run-time quantities."""
+    from .util import path_conds
+
+    out = []
+    cmps = [(n, _cmp_lin(ctx, f, n)) for n in iter_own(f.node) if isinstance(n, ast.Compare)]
+    cmps = [(n, c) for n, c in cmps if c is not None]
+    for n in iter_own(f.node):
+        if not (isinstance(n, ast.Subscript) and isinstance(n.slice, ast.Slice)):
+            continue
+        for b in (n.slice.lower, n.slice.upper):
+            if b is None:
+                continue
+            lin = _resolve_local(ctx, f, _lin(b))
+            if lin is None or not (any(v > 0 for v in lin[0].values()) and any(v < 0 for v in lin[0].values())):
+                continue
+            # a dominating test that fixes the sign of the same difference
+            guarded = False
+            for e, pol in path_conds(ctx, f, n):
+                c = _cmp_lin(ctx, f, getattr(e, "_orig", e))
+                if c is not None and (c[0] == lin[0] or c[0] == {k: -v for k, v in lin[0].items()}):
+                    guarded = True
+            belief = None
+            if not guarded:
+                for cn, c in cmps:
+                    if c[0] == lin[0] or c[0] == {k: -v for k, v in lin[0].items()}:
+                        belief = norm(cn)
+            out.append((n, norm(b), guarded, belief))
+    return out
+
+
+@rule("SLICE-NEG", ["C04", "C05", "C06", "C07", "C08", "C09", "C10", "C11", "C12", "C14", "C15", "C16", "C17", "C19", "C20"], floor=1, section="3.10")
+def slice_neg(ctx: Ctx) -> List[Ob]:
+    """contradiction rule: a slice bound `a - b` of two run-time quantities wraps around when it is negative; if the same function tests the sign of that difference elsewhere (so the author knows it can be negative) the slice must sit under such a test"""
+    from .own import family_props
+
+    obs: List[Ob] = []
+    for f in ctx.model.all_funcs():
+        for n, bt, guarded, belief in _slice_neg_findings(ctx, f):
+            props = family_props(f)
+            if not props:
+                continue  # not part of an operation a property speaks about
+            if guarded:
+                obs.append(ctx.ob("SLICE-NEG", props, f, f"slice bound `{bt}` is used under a test of its sign", n, True))
+            elif belief is not None:
+                obs.append(ctx.ob("SLICE-NEG", props, f, f"slice bound `{bt}` is used under a test of its sign", n, False,
+                                  f"`{norm(n)}`: the function tests `{belief}` elsewhere, so `{bt}` can be negative here; a negative bound counts from the other end "
+                                  "of the list instead of giving an empty result"))
+    cc = ctx.with_extra({"zz_slice_control": _SLICE_CONTROL})
+    hit = [x for x in _slice_neg_findings(cc, cc.model.func("zz_slice_control")) if not x[2] and x[3] is not None]
+    if len(hit) != 1:
+        raise AnalysisError("SLICE-NEG positive control not detected")
+    obs.append(ctx.ob("SLICE-NEG", ["C04", "C05", "C06", "C07", "C08", "C09", "C10", "C11", "C12", "C14", "C15", "C16", "C17", "C19", "C20"],
+                      "control:zz_slice_control", "synthetic unguarded difference bound is detected", None, True, f"control reported `{hit[0][1]}` against `{hit[0][3]}`"))
+    return obs
